@@ -274,11 +274,14 @@ func VPH_scan() {
 			roots = append(roots, NewExplicitRoot("x", top))
 			wantAdd = append(wantAdd, top)
 		case 1:
-			roots = append(roots, RefRoot{ref: git.Reference{Refname: "refs/heads/m", OID: top}, walk: true, groups: []RefGroupSymbol{"", "branches"}})
+			// overlapping refgroups: group lists of equal length that differ only in the middle
+			mid := []RefGroupSymbol{"branches", "tags"}[vp_Choice("midgroup", 2)]
+			roots = append(roots, RefRoot{ref: git.Reference{Refname: "refs/heads/m", OID: top}, walk: true, groups: []RefGroupSymbol{"", mid, "wip"}})
 			wantAdd = append(wantAdd, top)
 			nrefs++
 			tally[""]++
-			tally["branches"]++
+			tally[mid]++
+			tally["wip"]++
 		case 2:
 			// an unselected reference, possibly pointing at the very object a selected root names
 			zoid := vpMkOID('c', 77)
@@ -475,7 +478,8 @@ func VPH_collectReferences() {
 		if i >= n {
 			return git.Reference{}, false, nil
 		}
-		r := git.Reference{Refname: names[i], OID: vpMkOID('c', i), ObjectType: "commit", ObjectSize: counts.Count32(100 + i)}
+		// consecutive references may point at the same object (a branch and a lightweight tag)
+		r := git.Reference{Refname: names[i], OID: vpMkOID('c', i/2), ObjectType: "commit", ObjectSize: counts.Count32(100 + i)}
 		i++
 		return r, true, nil
 	})
@@ -489,7 +493,7 @@ func VPH_collectReferences() {
 	vp_Assert(err == nil && len(roots) == n, "one root per listed reference")
 	for k := 0; k < n && k < len(roots); k++ {
 		r := roots[k]
-		vp_Assert(r.Name() == names[k] && r.OID() == vpMkOID('c', k), "references in git's order")
+		vp_Assert(r.Name() == names[k] && r.OID() == vpMkOID('c', k/2), "references in git's order")
 		vp_Assert(r.Walk() == (len(names[k])%2 == 0), "selection as decided by the grouper")
 		vp_Assert(len(seen) > k && seen[k] == names[k], "each reference categorised once, in order")
 		if r.Walk() {
